@@ -5,6 +5,7 @@ X.check_and_correct.  Oracle = set arithmetic over the encoder's own outputs (th
 one of self-consistency: systematic, outputs accepted, accepted set == 2^k outputs, distance >= d).
 """
 import itertools
+import os
 
 from dsim import core
 from dsim.base import Check
@@ -83,7 +84,8 @@ class C06(Check):
             return {"task": "codewords", "code": c, "range": [a, b]}
         # mixed: a history of calls on several codes over related words
         w = streams["work"]
-        codes = w.sample(ORDER, w.choice([2, 3, 5, 7]))
+        codes = w.sample(ORDER, w.choice([1, 2, 3, 5, 7]))
+        reuse = streams["knobs"].choice([0.0, 0.2, 0.2, 0.9])  # how often the receiver re-uses its one long-lived buffer object per code
         ops = []
         recent = []
         for _ in range(w.choice([200, 1000, 3000])):
@@ -109,10 +111,12 @@ class C06(Check):
             if w.random() < 0.15:
                 # the transmitter keeps using what generate() returned: the channel corrupts that very array in place
                 op, bits = "generate!", format(w.getrandbits(k), f"0{k}b") + ":" + str(w.randrange(n))
+            elif w.random() < reuse:
+                bits = "rb:" + bits  # the received word is written INTO the receiver's long-lived buffer object, which is handed over as it is
             elif w.random() < 0.2:
                 bits = "le:" + bits  # same bit sequence in a little-endian bitarray (legal, unusual)
             ops.append([c, op, bits])
-            if not bits.startswith(("cw:", "le:")) and op != "generate!":
+            if not bits.startswith(("cw:", "le:", "rb:")) and op != "generate!":
                 recent.append(bits)
                 del recent[:-8]
         return {"task": "ops", "ops": ops}
@@ -125,10 +129,29 @@ class C06(Check):
     # ---------------------------------------------------------------- execution
 
     def execute(self, case):
+        res = core.RunResult()
+        at = [None, None]
+        try:
+            return self._execute(case, res, at)
+        except Exception as e:
+            # every call this check makes hands a word of the code's own length to generate / check / repair: an exception that comes out of
+            # the library's code (not out of this harness) is the library failing the call, which none of the clauses allows
+            import traceback
+
+            root = os.path.realpath(core.repo_root())
+            frames = traceback.extract_tb(e.__traceback__)
+            if not frames or not os.path.realpath(frames[-1].filename).startswith(root + os.sep):
+                raise
+            code = case.get("code") or (case["ops"][at[0]][0] if at[0] is not None and at[0] < len(case.get("ops", [])) else "?")
+            res.violate("C06.call-raises", code, f"{frames[-1].name} ({os.path.relpath(frames[-1].filename, root)}:{frames[-1].lineno}) raised {type(e).__name__}: {e} "
+                        f"for a word of the code's own length" + (f" at call #{at[0]} {case['ops'][at[0]]}" if at[0] is not None and case.get("task", "ops") == "ops" else ""), at=at[0])
+            res["digest"] = core.derive("C06raised", code, type(e).__name__)
+            return res
+
+    def _execute(self, case, res, at):
         from bitarray import bitarray
         from bitarray.util import ba2int, int2ba
 
-        res = core.RunResult()
         log = core.EventLog()
         sets = {}
 
@@ -151,18 +174,35 @@ class C06(Check):
                     if v["oracle"] == oracle and v["site"] == site:
                         v["count"] = v.get("count", 1) + 1
 
-        ops_at = [None]
+        ops_at = at
         task = case.get("task", "ops")
         if task == "ops":
             for c in sorted({o[0] for o in case["ops"]}):
                 codeset(c)
             recent = []
+            rbufs = {}
             for i, (c, op, bits) in enumerate(case["ops"]):
+                ops_at[0] = i
                 cls, n, k, d, ham = get_code(c)
                 cs = codeset(c)
                 little = bits.startswith("le:")
-                if little:
+                rbuf = bits.startswith("rb:")
+                if little or rbuf:
                     bits = bits[3:]
+                if op == "correct-np2":
+                    import numpy
+
+                    dtn, _, b01 = bits.partition(":")
+                    rxl = [int(x) for x in b01]
+                    try:
+                        back = [int(x) & 1 for x in cls.correct_numpy_array(numpy.array(rxl, dtype=numpy.dtype(dtn))).tolist()]
+                    except Exception as e:
+                        back = type(e).__name__
+                    if back != rxl:
+                        fail("C06.double-error-reported", c + ":ndarray", f"call #{i}: H16114.correct_numpy_array({dtn} {b01}) = {back} instead of the word unchanged", None)
+                    res["evals"] += 1
+                    ops_at[0] = i
+                    continue
                 if op in ("generate-np", "correct-np", "generate-np-held"):
                     import numpy
 
@@ -241,9 +281,14 @@ class C06(Check):
                     wd = bitarray(wd.to01(), endian="little")
                     res["cov"].add(f"{c}|mixed|little-endian")
                 wi = int(wd.to01(), 2) if len(wd) else 0
+                if rbuf:
+                    buf = rbufs.setdefault(c, bitarray(n))
+                    buf[:] = wd  # in-place overwrite of the same object, reception after reception
+                    wd = buf
+                    res.fault("receive_buffer_reuse")
                 res["evals"] += 1
                 ops_at[0] = i
-                self._one(res, fail, cls, c, n, k, d, cs, op, wd, wi, None, i, "mixed")
+                self._one(res, fail, cls, c, n, k, d, cs, op, wd, wi, None, i, "mixed", nocopy=rbuf)
                 log.add(i, c, op, wd.to01())
             res["ops"] = len(case["ops"])
         elif task == "words":
@@ -358,6 +403,16 @@ class C06(Check):
                             ok, rep = cls.check_and_correct(rx.copy())
                             if ok:
                                 fail("C06.double-error-reported", c, f"H16114: double error {list(p)} on {cw.to01()} 'repaired' to {rep.to01()} instead of reported uncorrectable", [[c, "correct", rx.to01()]])
+                            # the ndarray entry point has no flag: 'uncorrectable' is the received word handed back as it was received
+                            dt3 = (int, numpy.uint8, bool, numpy.int64)[(m + p[0] + p[1]) % 4]
+                            rxl = [int(x) for x in rx.tolist()]
+                            try:
+                                back = [int(x) & 1 for x in cls.correct_numpy_array(numpy.array(rxl, dtype=dt3)).tolist()]
+                            except Exception as e:
+                                back = type(e).__name__
+                            if back != rxl:
+                                fail("C06.double-error-reported", c + ":ndarray", f"H16114.correct_numpy_array({numpy.dtype(dt3).name}): double error {list(p)} on {cw.to01()} came back as "
+                                     f"{back} instead of unchanged", [[c, "correct-np2", numpy.dtype(dt3).name + ":" + rx.to01()]])
                         res["cov"].add(f"{c}|w{w}|{where}")
                     res.fault(f"weight{w}", len(pl))
             log.add(0, c, "codewords", (a, b))
@@ -366,27 +421,29 @@ class C06(Check):
         return res
 
     @staticmethod
-    def _one(res, fail, cls, c, n, k, d, cs, op, wd, wi, ops, i, arm):
+    def _one(res, fail, cls, c, n, k, d, cs, op, wd, wi, ops, i, arm, nocopy=False):
         """judge a single call by the codeword-set oracle"""
         from bitarray.util import ba2int
 
+        shown = wd.to01()
+        arg = (lambda: wd) if nocopy else wd.copy  # nocopy: the caller's own long-lived object is handed over, not a private copy per call
         iscw = wi in cs
         if op == "generate":
             from bitarray import bitarray as _ba
 
-            cw = _ba(cls.generate(wd.copy()).tolist())
-            if len(cw) != n or cw[:k] != wd:
-                fail("C06.systematic", c, f"call #{i}: {c}.generate({wd.to01()}) = {cw.to01()} is not the message followed by {n - k} parity bits", ops)
+            cw = _ba(cls.generate(arg()).tolist())
+            if len(cw) != n or cw[:k].to01() != shown:
+                fail("C06.systematic", c, f"call #{i}: {c}.generate({shown}) = {cw.to01()} is not the message followed by {n - k} parity bits", ops)
             elif not cls.check(cw.copy()):
                 fail("C06.output-accepted", c, f"call #{i}: {c}.check rejects encoder output {cw.to01()}", ops)
             return
         if op == "check":
-            got = bool(cls.check(wd.copy()))
+            got = bool(cls.check(arg()))
             if got != iscw:
-                fail("C06.accepted-set", c, f"call #{i}: {c}.check({wd.to01()}) = {got}, word is {'a' if iscw else 'not a'} codeword", ops)
+                fail("C06.accepted-set", c, f"call #{i}: {c}.check({shown}) = {got}, word is {'a' if iscw else 'not a'} codeword", ops)
             res["cov"].add(f"{c}|{arm}|check|{int(iscw)}")
         elif op == "correct":
-            ok, rep = cls.check_and_correct(wd.copy())
+            ok, rep = cls.check_and_correct(arg())
             near = [x for x in cs if bin(x ^ wi).count("1") == 1] if not iscw else []
             if iscw:
                 want = (True, wi)
@@ -398,9 +455,9 @@ class C06(Check):
                 want = None  # beyond single-error distance: property only constrains (16,11,4) doubles
             ri = int(rep.to01(), 2)
             if want is not None and (bool(ok), ri) != want:
-                fail("C06.single-error-repair", c, f"call #{i}: {c}.check_and_correct({wd.to01()}) = ({ok}, {rep.to01()}), expected repair to {want[1]:0{n}b}", ops)
+                fail("C06.single-error-repair", c, f"call #{i}: {c}.check_and_correct({shown}) = ({ok}, {rep.to01()}), expected repair to {want[1]:0{n}b}", ops)
             if want is None and c == "H16114" and any(bin(x ^ wi).count("1") == 2 for x in cs) and ok:
-                fail("C06.double-error-reported", c, f"call #{i}: H16114 double error word {wd.to01()} 'repaired' to {rep.to01()}", ops)
+                fail("C06.double-error-reported", c, f"call #{i}: H16114 double error word {shown} 'repaired' to {rep.to01()}", ops)
             res["cov"].add(f"{c}|{arm}|correct|{int(iscw)}|{int(bool(near))}")
 
 
